@@ -173,7 +173,7 @@ def hugr_resolution_touches_only_custom_nodes():
     from hugr.build.dfg import Dfg
     reg, have = registry()
     d = Dfg(tys.Bool)
-    opq = tys.Opaque("T", TypeBound.Any, [tys.TypeTypeArg(tys.Qubit)], "my.ext")
+    opq = tys.Opaque("T", TypeBound.Any, [tys.TypeTypeArg(tys.Qubit), tys.TypeTypeArg(tys.Bool)], "my.ext")
     a = d.add_op(ops.Custom("Op", tys.FunctionType([tys.Bool], [opq]), "x", "my.ext", []), d.inputs()[0])
     b = d.add_op(ops.Custom("Nope", tys.FunctionType([opq], [opq]), "y", "nowhere", []), a[0])
     c = d.add_op(ops.Noop(), b[0])
